@@ -6,22 +6,22 @@ From BS Require Import Base.Arith Model.Term Model.Propensity Model.Interface Mo
 Import ListNotations.
 
 Inductive vrule (F : Type) :=
-| VRLinear (g : nat)            (* volume + p[g]*dt *)
-| VRMult (g : nat)              (* volume + volume*p[g]*dt *)
+| VRLinear (g : nat) (noise : option nat)   (* volume + (p[g] + N(0, p[noise]))*dt *)
+| VRMult (g : nat) (noise : option nat)     (* volume + volume*(p[g] + N(0, p[noise]))*dt *)
 | VRAssign (tm : term F)        (* term evaluated with the volume *)
 | VROde (tm : term F).          (* volume + term*dt *)
 Arguments VRLinear {F}. Arguments VRMult {F}. Arguments VRAssign {F}. Arguments VROde {F}.
 
 Inductive drule (F : Type) :=
-| DRTime (thr : nat)            (* time - initial_time >= p[thr] - 1e-9 *)
-| DRVolume (thr : nat)          (* volume >= p[thr] - 1e-9 *)
-| DRDeltaV (thr : nat)          (* volume - initial_volume >= p[thr] - 1e-9 *)
+| DRTime (thr : nat) (noise : option nat)     (* time - initial_time >= p[thr] - 1e-9, or >= p[thr] + N(0, p[noise]) *)
+| DRVolume (thr : nat) (noise : option nat)   (* volume >= ... *)
+| DRDeltaV (thr : nat) (noise : option nat)   (* volume - initial_volume >= ... *)
 | DRGeneral (tm : term F).      (* term > 0 *)
 Arguments DRTime {F}. Arguments DRVolume {F}. Arguments DRDeltaV {F}. Arguments DRGeneral {F}.
 
 Inductive krule (F : Type) :=
-| KRSpecies (sp thr : nat) (comp : Z)    (* comp: 0 "=", 1 ">", -1 "<", with the 1e-9 slack of the code *)
-| KRParam (pa thr : nat) (comp : Z)
+| KRSpecies (sp thr : nat) (comp : Z) (noise : option nat)    (* comp: 0 "=", 1 ">", -1 "<", with the 1e-9 slack of the code; threshold p[thr] (+ N(0, p[noise])) *)
+| KRParam (pa thr : nat) (comp : Z) (noise : option nat)
 | KRGeneral (tm : term F).
 Arguments KRSpecies {F}. Arguments KRParam {F}. Arguments KRGeneral {F}.
 
@@ -41,41 +41,61 @@ Arguments mkLin {F}. Arguments ln_sim {F}. Arguments ln_vrules {F}. Arguments ln
 Arguments ln_vevents {F}. Arguments ln_devents {F}. Arguments ln_kevents {F}.
 
 Section LineageLoop.
-  Context {F : Type} (A : Arith F).
+  Context {F : Type} (A : Arith F) (pi2 : F).
   Variable eps9 : F.      (* 1E-9 *)
   Variable eps7 : F.      (* 10e-8 *)
 
-  Definition vrule_apply (r : vrule F) (x p : list F) (V t dt : F) : F :=
-    match r with
-    | VRLinear g => fadd A V (fmul A (getv A p g) dt)
-    | VRMult g => fadd A V (fmul A (fmul A V (getv A p g)) dt)
-    | VRAssign tm => teval A (Some V) x p t tm
-    | VROde tm => fadd A V (fmul A (teval A (Some V) x p t tm) dt)
+  (* the noise term normal_rv(0, p[noise]) of a rule, when it has one: two uniforms *)
+  Definition noise_of (noise : option nat) (p : list F) (u : nat -> F) (pos : nat) : F * nat :=
+    match noise with
+    | None => (f0 A, pos)
+    | Some i => normal_rv A pi2 (fofZ A 0) (getv A p i) u pos
     end.
-  Definition apply_volume_rules (rs : list (vrule F)) (x p : list F) (V t dt : F) : F :=
-    fold_left (fun v r => vrule_apply r x p v t dt) rs V.
 
-  Definition drule_check (r : drule F) (x p : list F) (t V t_init V_init : F) : bool :=
+  Definition vrule_apply (r : vrule F) (x p : list F) (V t dt : F) (u : nat -> F) (pos : nat) : F * nat :=
     match r with
-    | DRTime thr => fleb A (fsub A (getv A p thr) eps9) (fsub A t t_init)
-    | DRVolume thr => fleb A (fsub A (getv A p thr) eps9) V
-    | DRDeltaV thr => fleb A (fsub A (getv A p thr) eps9) (fsub A V V_init)
-    | DRGeneral tm => fltb A (f0 A) (teval A (Some V) x p t tm)
+    | VRLinear g None => (fadd A V (fmul A (getv A p g) dt), pos)
+    | VRLinear g (Some i) => let '(z, pos') := noise_of (Some i) p u pos in (fadd A V (fmul A (fadd A (getv A p g) z) dt), pos')
+    | VRMult g None => (fadd A V (fmul A (fmul A V (getv A p g)) dt), pos)
+    | VRMult g (Some i) => let '(z, pos') := noise_of (Some i) p u pos in (fadd A V (fmul A (fmul A V (fadd A (getv A p g) z)) dt), pos')
+    | VRAssign tm => (teval A (Some V) x p t tm, pos)
+    | VROde tm => (fadd A V (fmul A (teval A (Some V) x p t tm) dt), pos)
+    end.
+  Definition apply_volume_rules (rs : list (vrule F)) (x p : list F) (V t dt : F) (u : nat -> F) (pos : nat) : F * nat :=
+    fold_left (fun vp r => vrule_apply r x p (fst vp) t dt u (snd vp)) rs (V, pos).
+
+  (* threshold test: without noise "value >= p[thr] - 1e-9", with noise "value >= p[thr] + N(0, p[noise])" *)
+  Definition thr_check (v : F) (thr : nat) (noise : option nat) (p : list F) (u : nat -> F) (pos : nat) : bool * nat :=
+    match noise with
+    | None => (fleb A (fsub A (getv A p thr) eps9) v, pos)
+    | Some i => let '(z, pos') := noise_of (Some i) p u pos in (fleb A (fadd A (getv A p thr) z) v, pos')
+    end.
+  Definition drule_check (r : drule F) (x p : list F) (t V t_init V_init : F) (u : nat -> F) (pos : nat) : bool * nat :=
+    match r with
+    | DRTime thr noise => thr_check (fsub A t t_init) thr noise p u pos
+    | DRVolume thr noise => thr_check V thr noise p u pos
+    | DRDeltaV thr noise => thr_check (fsub A V V_init) thr noise p u pos
+    | DRGeneral tm => (fltb A (f0 A) (teval A (Some V) x p t tm), pos)
     end.
   Definition cmp_check (v thr : F) (comp : Z) : bool :=
     if (comp =? 0)%Z then fltb A (fsub A thr eps9) v && fltb A v (fadd A thr eps9)
     else if (comp =? 1)%Z then fltb A (fsub A thr eps9) v
     else if (comp =? -1)%Z then fltb A v (fadd A thr eps9)
     else false.
-  Definition krule_check (r : krule F) (x p : list F) (t V : F) : bool :=
+  Definition krule_check (r : krule F) (x p : list F) (t V : F) (u : nat -> F) (pos : nat) : bool * nat :=
     match r with
-    | KRSpecies sp thr comp => cmp_check (getv A x sp) (getv A p thr) comp
-    | KRParam pa thr comp => cmp_check (getv A p pa) (getv A p thr) comp
-    | KRGeneral tm => fltb A (f0 A) (teval A (Some V) x p t tm)
+    | KRSpecies sp thr comp noise => let '(z, pos') := noise_of noise p u pos in
+                                     (cmp_check (getv A x sp) (match noise with None => getv A p thr | Some _ => fadd A (getv A p thr) z end) comp, pos')
+    | KRParam pa thr comp noise => let '(z, pos') := noise_of noise p u pos in
+                                   (cmp_check (getv A p pa) (match noise with None => getv A p thr | Some _ => fadd A (getv A p thr) z end) comp, pos')
+    | KRGeneral tm => (fltb A (f0 A) (teval A (Some V) x p t tm), pos)
     end.
-  (* index of the first rule that holds, -1 otherwise *)
-  Fixpoint first_true {T} (chk : T -> bool) (l : list T) (i : Z) : Z :=
-    match l with [] => (-1)%Z | r :: rest => if chk r then i else first_true chk rest (i + 1)%Z end.
+  (* index of the first rule that holds, -1 otherwise; the rules after it are not evaluated (they draw nothing) *)
+  Fixpoint first_true {T} (chk : T -> nat -> bool * nat) (l : list T) (i : Z) (pos : nat) : Z * nat :=
+    match l with
+    | [] => ((-1)%Z, pos)
+    | r :: rest => let '(b, pos') := chk r pos in if b then (i, pos') else first_true chk rest (i + 1)%Z pos'
+    end.
 
   Definition vevent_apply (e : vevent F) (x p : list F) (V t : F) : F :=
     match e with
@@ -105,20 +125,21 @@ Section LineageLoop.
       let s := ln_sim l in
       let V := ls_V st in
       let '(x1, p1) := apply_rules A (sm_rules s) (Some V) (ls_x st, ls_p st) (ls_time st) dt (ls_rule_step st) in
-      let dead := first_true (fun r => krule_check r x1 p1 (ls_time st) V) (ln_krules l) 0%Z in
-      let divd := first_true (fun r => drule_check r x1 p1 (ls_time st) V t_init V_init) (ln_drules l) 0%Z in
+      (* death rules first, then division rules: both lists are consulted (and draw their noise) before either result is used *)
+      let '(dead, posa) := first_true (fun r => krule_check r x1 p1 (ls_time st) V u) (ln_krules l) 0%Z (ls_pos st) in
+      let '(divd, posb) := first_true (fun r => drule_check r x1 p1 (ls_time st) V t_init V_init u) (ln_drules l) 0%Z posa in
       if (0 <=? dead)%Z then
-        Done (mkLst (ls_time st) (ls_todo st) x1 p1 (ls_rule_step st) (ls_pos st) (ls_rows st) (ls_vols st) (ls_next_q st) V (-1)%Z dead true)
+        Done (mkLst (ls_time st) (ls_todo st) x1 p1 (ls_rule_step st) posb (ls_rows st) (ls_vols st) (ls_next_q st) V (-1)%Z dead true)
       else if (0 <=? divd)%Z then
-        Done (mkLst (ls_time st) (ls_todo st) x1 p1 (ls_rule_step st) (ls_pos st) (ls_rows st) (ls_vols st) (ls_next_q st) V divd (-1)%Z true)
+        Done (mkLst (ls_time st) (ls_todo st) x1 p1 (ls_rule_step st) posb (ls_rows st) (ls_vols st) (ls_next_q st) V divd (-1)%Z true)
       else
       let props := lin_props l x1 p1 V (ls_time st) in
       let Lambda := array_sum A props in
       let '(proposed, rs, pos1) :=
         if feqb A Lambda (f0 A) then
           (* nothing can fire: one dt ahead, but never before the next queued time *)
-          ((if fltb A (fadd A (ls_time st) dt) (ls_next_q st) then ls_next_q st else fadd A (ls_time st) dt), true, ls_pos st)
-        else let '(tau, pos') := exponential_rv A Lambda u (ls_pos st) in (fadd A (ls_time st) tau, false, pos') in
+          ((if fltb A (fadd A (ls_time st) dt) (ls_next_q st) then ls_next_q st else fadd A (ls_time st) dt), true, posb)
+        else let '(tau, pos') := exponential_rv A Lambda u posb in (fadd A (ls_time st) tau, false, pos') in
       let nq := ls_next_q st in
       let '(time', nq', toq, rs) :=
         if (fltb A nq proposed || (feqb A Lambda (f0 A) && fleb A nq proposed)) && fltb A nq final then (nq, fadd A nq dt, true, true)
@@ -127,9 +148,9 @@ Section LineageLoop.
       let '(rows, rem) := record A (ls_todo st) time' x1 in
       let vols := map (fun _ => V) rows in
       if toq then
-        let V' := apply_volume_rules (ln_vrules l) x1 p1 V time' dt in
+        let '(V', posv) := apply_volume_rules (ln_vrules l) x1 p1 V time' dt u pos1 in
         if fleb A V' (f0 A) then Fault 4
-        else Done (mkLst time' rem x1 p1 rs pos1 (ls_rows st ++ rows) (ls_vols st ++ vols) nq' V' (-1)%Z (-1)%Z false)
+        else Done (mkLst time' rem x1 p1 rs posv (ls_rows st ++ rows) (ls_vols st ++ vols) nq' V' (-1)%Z (-1)%Z false)
       else
         let '(choice, pos2) := sample_discrete A props Lambda u pos1 in
         if (choice <? 0)%Z || (Z.of_nat (length props) <=? choice)%Z then Fault 1
